@@ -119,8 +119,14 @@ class UFKernel:
         self.f = z3.Function(name, *([z3.RealSort()] * n), z3.RealSort())
         self.fi = z3.Function(name + "_im", *([z3.RealSort()] * n), z3.RealSort()) if complex_ else None
         self.apps = {}
+        self.symmetric = symmetric
 
     def val(self, x, y, nx, ny):
+        if self.symmetric:
+            return self._val(x, y, nx, ny) + self._val(y, x, ny, nx)
+        return self._val(x, y, nx, ny)
+
+    def _val(self, x, y, nx, ny):
         a = [term(c) for c in x] + [term(c) for c in y]
         if "x" in self.normals:
             a += [term(c) for c in nx]
